@@ -166,7 +166,7 @@ func reregOne(c *vf.Ctx, seed int64, batch, iter int, race bool) {
 					// channel / sync primitive, or sleeping): whatever it waits on, it has not made its way out
 					// of Run yet. A goroutine that merely has not left Run's epilogue is not blocked.
 					if g, ok := gdump.Find(gdump.Snapshot(), id); ok && g.Has("daemon.(*OrderedDaemon).Run") &&
-						(g.Parked() || g.State == "sleep") {
+						stillWaiting(g, "daemon.(*OrderedDaemon).Run") {
 						nw.runWaiting = true
 						runSeenWaiting.Add(1)
 					}
@@ -305,4 +305,31 @@ func chainOf(all []*swk, name string) string {
 		fmt.Fprintf(&b, "{%s order=%d call=%d..%d err=%s pan=%q started=%v returned=%v ret=%d runs=%d} ", w.kind, w.order, w.callTick, w.callRet, e, w.pan, w.started.Load(), w.returned.Load(), w.retTick.Load(), w.runs.Load())
 	}
 	return b.String()
+}
+
+// stillWaiting reports whether goroutine g is blocked, or on its way into/out of a
+// blocking standard-library wait, below the frame `outer`. It does not matter which
+// primitive: parked on anything, sleeping, or (runnable, e.g. just woken) inside a
+// sync acquire/wait function or a channel operation. A goroutine that is merely
+// finishing `outer` (e.g. in a deferred Unlock) is not waiting.
+func stillWaiting(g gdump.G, outer string) bool {
+	if !g.Has(outer) {
+		return false
+	}
+	if g.Parked() || g.State == "sleep" {
+		return true
+	}
+	for _, f := range g.Frames { // innermost first
+		if strings.Contains(f, outer) {
+			break
+		}
+		switch {
+		case strings.HasPrefix(f, "sync.") && !strings.Contains(f, "Unlock") &&
+			(strings.Contains(f, "Wait") || strings.Contains(f, "Lock") || strings.Contains(f, ").Do")):
+			return true
+		case strings.HasPrefix(f, "runtime.chanrecv"), strings.HasPrefix(f, "runtime.chansend"), strings.HasPrefix(f, "runtime.selectgo"):
+			return true
+		}
+	}
+	return false
 }
